@@ -1,1 +1,423 @@
-pub fn run_c33(_ctx: &mut rvcore::Ctx) {}
+//! C33: a failed run never changes the served data.
+//!
+//! In-process: a real `Engine` (zero TALs, scratch cache directory), a real
+//! `SharedHistory` and `NotifySender`, and the server's real per-run step
+//! `Server::process_once` (through the guarded wrapper
+//! `Server::verif_process_once`). Histories interleave successful runs,
+//! forced retryable / fatal failures (hook at the top of
+//! `ValidationReport::process`) and *real* fatal failures (the RRDP
+//! collector's working directory is removed, so `run.cleanup()` fails after
+//! validation). The served data set varies through local exceptions (SLURM
+//! assertions): with zero TALs the served set is exactly the assertions.
+
+use std::collections::BTreeSet;
+use std::path::PathBuf;
+use std::sync::Arc;
+use futures::FutureExt;
+use rpki::rtr::server::{NotifySender, PayloadSet, PayloadSource};
+use rpki::rtr::{PayloadRef, Serial};
+use routinator::config::Config;
+use routinator::engine::Engine;
+use routinator::operation::Server;
+use routinator::payload::SharedHistory;
+use routinator::slurm::LocalExceptions;
+use routinator::verif::{set_run_outcomes, RunOutcome};
+use serde_json::{json, Value};
+use rvcore::Ctx;
+
+const BASE_ASN: u32 = 64496;
+const UNIVERSE: u64 = 5;
+
+fn slurm(ids: &[u64]) -> LocalExceptions {
+    let assertions: Vec<Value> = ids.iter().map(|id| json!({
+        "asn": BASE_ASN as u64 + id,
+        "prefix": format!("10.0.{}.0/24", id),
+        "maxPrefixLength": 24,
+        "comment": "verif"
+    })).collect();
+    let doc = json!({
+        "slurmVersion": 1,
+        "validationOutputFilters": {"prefixFilters": [], "bgpsecFilters": []},
+        "locallyAddedAssertions": {
+            "prefixAssertions": assertions, "bgpsecAssertions": []
+        }
+    });
+    LocalExceptions::from_json(&doc.to_string(), true).expect("slurm json")
+}
+
+/// Everything a client (RTR, HTTP) can get at, canonical.
+#[derive(Clone, Debug, Eq, PartialEq)]
+struct View {
+    ready: bool,
+    rtr_notify: (u16, u32),
+    rtr_full: ((u16, u32), Vec<String>),
+    session: u64,
+    serial: u32,
+    created: Option<(i64, u32)>,
+    done: Option<(i64, u32)>,
+    current: Option<Vec<u64>>,
+    /// Address of the current snapshot / metrics objects (identity).
+    current_ptr: usize,
+    metrics_ptr: usize,
+    /// `delta_since(s)` for every s in 0..=serial+1: None or (target serial,
+    /// announce_len, withdraw_len).
+    deltas: Vec<Option<(u32, usize, usize)>>,
+}
+
+fn payload_str(p: PayloadRef) -> String {
+    match p {
+        PayloadRef::Origin(o) => format!("O{}-{}", o.asn, o.prefix),
+        PayloadRef::RouterKey(k) => format!("R{}", k.asn),
+        PayloadRef::Aspa(a) => format!("A{}", a.customer),
+    }
+}
+
+fn view(history: &SharedHistory) -> View {
+    let ready = history.ready();
+    let state = PayloadSource::notify(history);
+    let (fstate, mut set) = history.full();
+    let mut items = Vec::new();
+    while let Some(item) = set.next() {
+        items.push(payload_str(item));
+    }
+    let read = history.read();
+    let (session, serial) = read.session_and_serial();
+    let serial = u32::from(serial);
+    let current = read.current();
+    let metrics = read.metrics();
+    let mut deltas = Vec::new();
+    for s in 0..=(serial.min(40) + 1) {
+        deltas.push(read.delta_since(Serial::from(s)).map(|d| {
+            (u32::from(d.serial()), d.announce_len(), d.withdraw_len())
+        }));
+    }
+    View {
+        ready,
+        rtr_notify: (state.session(), u32::from(state.serial())),
+        rtr_full: ((fstate.session(), u32::from(fstate.serial())), items),
+        session, serial,
+        created: read.created().map(|t| {
+            (t.timestamp(), t.timestamp_subsec_nanos())
+        }),
+        done: read.last_update_done().map(|t| {
+            (t.timestamp(), t.timestamp_subsec_nanos())
+        }),
+        current: current.as_ref().map(|snapshot| {
+            let mut ids: Vec<u64> = snapshot.origins().map(|(o, _)| {
+                (o.asn.into_u32() - BASE_ASN) as u64
+            }).collect();
+            ids.sort();
+            ids
+        }),
+        current_ptr: current.as_ref().map(|a| Arc::as_ptr(a) as usize).unwrap_or(0),
+        metrics_ptr: metrics.as_ref().map(|a| Arc::as_ptr(a) as usize).unwrap_or(0),
+        deltas,
+    }
+}
+
+fn view_json(v: &View) -> Value {
+    json!({
+        "ready": v.ready, "rtr_notify": [v.rtr_notify.0, v.rtr_notify.1],
+        "rtr_full_state": [v.rtr_full.0.0, v.rtr_full.0.1],
+        "rtr_full_items": v.rtr_full.1,
+        "session": v.session, "serial": v.serial,
+        "created": v.created.map(|(s, n)| format!("{s}.{n}")),
+        "last_update_done": v.done.map(|(s, n)| format!("{s}.{n}")),
+        "current": v.current,
+        "current_ptr_changed_marker": v.current_ptr,
+        "metrics_ptr": v.metrics_ptr,
+        "deltas": v.deltas.iter().map(|d| match d {
+            None => Value::Null,
+            Some((s, a, w)) => json!([s, a, w])
+        }).collect::<Vec<_>>(),
+    })
+}
+
+fn show_time(t: Option<(i64, u32)>) -> String {
+    match t {
+        None => "none".into(),
+        Some((s, n)) => format!("{s}.{n}")
+    }
+}
+
+struct Env {
+    _dir: tempfile::TempDir,
+    cache: PathBuf,
+    config: Config,
+    engine: Engine,
+}
+
+fn make_env() -> Env {
+    let dir = tempfile::tempdir().expect("tempdir");
+    let cache = dir.path().join("cache");
+    std::fs::create_dir_all(&cache).expect("cache dir");
+    let mut config = Config::default_with_paths(
+        dir.path().join("routinator.conf"), cache.clone()
+    );
+    config.no_rir_tals = true;
+    config.disable_rsync = true;
+    config.validation_threads = 2;
+    let mut engine = Engine::new(&config, true).expect("engine");
+    engine.ignite().expect("ignite");
+    Env { _dir: dir, cache, config, engine }
+}
+
+fn letter(o: &str) -> &'static str {
+    match o { "ok" => "o", "retry" => "r", "fatal" => "f", _ => "F" }
+}
+
+fn gen_steps(rng: &mut rvcore::Rng, outcomes: &[&str], t0: u64) -> Vec<Value> {
+    let mut now = t0;
+    let mut prev: Vec<u64> = Vec::new();
+    let mut steps = Vec::new();
+    for oc in outcomes {
+        // Time: same second, next second or later; nanoseconds zero or not.
+        now += *rng.pick(&[0u64, 0, 1, 1, 2, 7]);
+        let nanos = *rng.pick(&[0u64, 0, 5, 999_999_999]);
+        // Data the run would produce: unchanged, small change, or fresh.
+        let data: Vec<u64> = match rng.below(4) {
+            0 => prev.clone(),
+            1 => {
+                let mut set: BTreeSet<u64> = prev.iter().cloned().collect();
+                let id = rng.below(UNIVERSE);
+                if !set.remove(&id) { set.insert(id); }
+                set.into_iter().collect()
+            }
+            _ => (0..UNIVERSE).filter(|_| rng.chance(1, 2)).collect(),
+        };
+        if *oc == "ok" { prev = data.clone(); }
+        steps.push(json!({
+            "outcome": oc, "secs": now, "nanos": nanos, "data": data
+        }));
+    }
+    steps
+}
+
+fn sequences(max: usize, alphabet: &[&'static str]) -> Vec<Vec<&'static str>> {
+    let mut res = Vec::new();
+    let mut level: Vec<Vec<&'static str>> = vec![vec![]];
+    for _ in 0..max {
+        let mut next = Vec::new();
+        for seq in &level {
+            for item in alphabet {
+                let mut seq = seq.clone();
+                seq.push(*item);
+                next.push(seq);
+            }
+        }
+        res.extend(next.iter().cloned());
+        level = next;
+    }
+    res
+}
+
+fn generate(ctx: &mut Ctx) -> Vec<Value> {
+    let mut res = ctx.corpus("C33");
+    let max = if ctx.quick() && !ctx.search { 5 } else { 6 };
+    let variants = ctx.budget(2, 6);
+    let t0 = 1_700_000_000u64;
+    for seq in sequences(max, &["ok", "retry", "fatal"]) {
+        for v in 0..variants {
+            let mut rng = ctx.rng.fork();
+            let keep = [10u64, 1, 2, 3, 10, 1][v % 6];
+            let steps = gen_steps(&mut rng, &seq, t0);
+            res.push(json!({"keep": keep, "t0": [t0, 0], "steps": steps}));
+        }
+    }
+    // Histories with real fatal failures (never as the very first, initial,
+    // run: that one does not use the collector).
+    let extra = ctx.budget(150, 2000);
+    for i in 0..extra {
+        let mut rng = ctx.rng.fork();
+        let len = rng.range(2, 8) as usize;
+        let mut seq: Vec<&str> = Vec::new();
+        for k in 0..len {
+            seq.push(match rng.below(8) {
+                0 | 1 if k > 0 => "real-fatal",
+                2 => "retry",
+                3 => "fatal",
+                _ => "ok",
+            });
+        }
+        let keep = [10u64, 1, 2, 3][i % 4];
+        let steps = gen_steps(&mut rng, &seq, t0);
+        res.push(json!({"keep": keep, "t0": [t0, 0], "steps": steps}));
+    }
+    res
+}
+
+pub fn run_c33(ctx: &mut Ctx) {
+    ctx.rule = "every history over {ok,retry,fatal} of length <= 5 (quick) / 6 (thorough), each \
+        with several seeded choices of run times (same second / later, zero / non-zero \
+        nanoseconds), data sets (unchanged / one item flipped / fresh subset of 5 origins, via \
+        SLURM assertions) and history-size in {1,2,3,10}; plus random histories with real \
+        fatal failures (RRDP directory removed => cleanup fails after validation). \
+        non-trivial = a failed run after at least one successful run; distinct by (outcome \
+        string, data changed before the failure, keep)".into();
+    let inputs: Vec<Value> = match ctx.replay_inputs() {
+        Some(inputs) => inputs,
+        None => generate(ctx),
+    };
+    log::set_max_level(log::LevelFilter::Info);
+    let env = make_env();
+
+    for input in inputs {
+        let Some(steps) = input["steps"].as_array() else {
+            ctx.case_oracle_only(&input, "bad-input");
+            continue
+        };
+        let keep = input["keep"].as_u64().unwrap_or(10);
+        let t0s = input["t0"][0].as_u64().unwrap_or(1_700_000_000);
+        let t0n = input["t0"][1].as_u64().unwrap_or(0);
+        let mut config = env.config.clone();
+        config.history_size = keep as usize;
+        rvcore::clock::set(t0s as i64, t0n as i64);
+        let history = SharedHistory::from_config(&config);
+        let mut notify = NotifySender::new();
+        let mut long_lived = notify.subscribe();
+        let mut notified_total = 0u64;
+        let mut op_steps = Vec::new();
+        let mut imp_steps = Vec::new();
+        let mut sig = String::new();
+        let mut had_ok = false;
+        let mut nontrivial = false;
+
+        for (idx, step) in steps.iter().enumerate() {
+            let oc = step["outcome"].as_str().unwrap_or("ok");
+            let secs = step["secs"].as_u64().unwrap_or(t0s);
+            let nanos = step["nanos"].as_u64().unwrap_or(0);
+            let data: Vec<u64> = step["data"].as_array().map(|a| {
+                a.iter().filter_map(|v| v.as_u64()).collect()
+            }).unwrap_or_default();
+            let exceptions = slurm(&data);
+            rvcore::clock::set(secs as i64, nanos as i64);
+
+            let before = view(&history);
+            let mut fresh = notify.subscribe();
+            let real = oc == "real-fatal";
+            let rrdp = env.cache.join("rrdp");
+            set_run_outcomes(vec![match oc {
+                "retry" => RunOutcome::Retry,
+                "fatal" => RunOutcome::Fatal,
+                _ => RunOutcome::Proceed,
+            }]);
+            if real {
+                let _ = std::fs::remove_dir_all(&rrdp);
+            }
+            // The server passes `initial = true` for its first run only;
+            // a real failure needs the collector, i.e. a non-initial run.
+            let initial = idx == 0 && !real;
+            let res = Server::verif_process_once(
+                &config, &env.engine, &history, &mut notify, &exceptions,
+                initial
+            );
+            if real {
+                let _ = std::fs::create_dir_all(&rrdp);
+            }
+            let after = view(&history);
+            let got_fresh = fresh.recv().now_or_never().is_some();
+            let got_long = long_lived.recv().now_or_never().is_some();
+            if got_fresh { notified_total += 1; }
+
+            let failed = oc != "ok";
+            sig.push_str(letter(oc));
+            if failed && had_ok { nontrivial = true; }
+            if !failed { had_ok = true; }
+
+            let returned_ok = res.is_ok();
+            if !failed && !returned_ok {
+                // A run that was told to proceed failed: the harness's
+                // environment is broken, not the property.
+                ctx.count("harness-ok-run-failed");
+                op_steps.push("harness-error".into());
+                imp_steps.push(format!("harness-error step {idx} failed"));
+                break
+            }
+            if failed && returned_ok {
+                // The run did fail (the hook / the removed directory made
+                // it fail); the step hides that. Judged by its effects below.
+                ctx.count("failed-run-reported-ok");
+            }
+            if let Err(err) = res {
+                if err.is_fatal() != (oc != "retry") {
+                    ctx.count("harness-fatality-mismatch");
+                }
+            }
+
+            // ORACLE: a failed run leaves everything served as it was.
+            if failed {
+                let mut diffs = Vec::new();
+                if before != after {
+                    if before.current != after.current
+                        || before.current_ptr != after.current_ptr
+                        || before.rtr_full.1 != after.rtr_full.1
+                        || before.ready != after.ready
+                    {
+                        diffs.push("data-set");
+                    }
+                    if before.serial != after.serial
+                        || before.rtr_notify != after.rtr_notify
+                        || before.rtr_full.0 != after.rtr_full.0
+                    {
+                        diffs.push("serial");
+                    }
+                    if before.session != after.session { diffs.push("session"); }
+                    if before.created != after.created { diffs.push("created"); }
+                    // `last_update_done` (shown by /status and /metrics only)
+                    // is compared through the model, not demanded here.
+                    if before.deltas != after.deltas { diffs.push("deltas"); }
+                    if before.metrics_ptr != after.metrics_ptr { diffs.push("metrics"); }
+                }
+                if got_fresh || got_long { diffs.push("notification"); }
+                if !diffs.is_empty() {
+                    ctx.oracle_fail(
+                        &format!("failed-run-changed-{}", diffs.join("+")),
+                        &format!(
+                            "step {idx} ({oc}) failed{} but changed: {}",
+                            if returned_ok { " (reported as Ok)" } else { "" },
+                            diffs.join(", ")
+                        ),
+                        &input,
+                        json!({
+                            "step": idx, "before": view_json(&before),
+                            "after": view_json(&after),
+                            "notified": got_fresh || got_long,
+                        })
+                    );
+                }
+            }
+            if got_fresh != got_long {
+                ctx.count("receiver-disagreement");
+            }
+
+            op_steps.push(format!(
+                "{} {} {} {}", letter(oc), secs, nanos,
+                if data.is_empty() { "-".to_string() }
+                else { data.iter().map(|d| d.to_string()).collect::<Vec<_>>().join(",") }
+            ));
+            let retained = (0..after.serial as usize).filter(|&s| {
+                after.deltas.get(s).map(|d| d.is_some()).unwrap_or(false)
+            }).count();
+            imp_steps.push(format!(
+                "ok={} cur={} ser={} ses={} cr={} d={} n={} done={}",
+                if returned_ok { 1 } else { 0 },
+                match after.current.as_ref() {
+                    None => "none".to_string(),
+                    Some(ids) => format!(
+                        "[{}]",
+                        ids.iter().map(|d| d.to_string()).collect::<Vec<_>>().join(",")
+                    )
+                },
+                after.serial, after.session, show_time(after.created),
+                retained, notified_total, show_time(after.done)
+            ));
+        }
+        let op = format!("c33 {} {} {}|{}", keep, t0s, t0n, op_steps.join(";"));
+        ctx.case(&input, &op, &imp_steps.join(";"));
+        ctx.count(&format!("len={}", steps.len()));
+        if nontrivial {
+            ctx.nontrivial(format!("{sig}/{keep}"));
+        }
+    }
+    rvcore::clock::disable();
+}
